@@ -587,3 +587,40 @@ def write_evidence(prop, ev):
     os.makedirs(os.path.join(VERIF, 'evidence'), exist_ok=True)
     with open(os.path.join(VERIF, 'evidence', f'{prop}.json'), 'w') as f:
         json.dump(ev, f, indent=1, default=str)
+
+
+# --------------------------------------------------------------------------
+# independent re-check of the compiled property file (thorough tier)
+# --------------------------------------------------------------------------
+COQCHK_ALLOWED = ('Coq.Reals.ClassicalDedekindReals.sig_not_dec', 'Coq.Reals.ClassicalDedekindReals.sig_forall_dec',
+                  'Coq.Logic.FunctionalExtensionality.functional_extensionality_dep', 'Coq.Logic.Classical_Prop.classic',
+                  'Coq.Logic.ProofIrrelevance', 'Coq.Logic.Eqdep.Eq_rect_eq.eq_rect_eq', 'Coq.Logic.JMeq.JMeq_eq',
+                  'Coq.Logic.ClassicalEpsilon', 'Coq.Logic.Epsilon', 'Coq.Logic.IndefiniteDescription',
+                  'Coq.Logic.ConstructiveEpsilon', 'Coq.Logic.PropExtensionality', 'Coq.Logic.ClassicalFacts',
+                  'Coq.Logic.ChoiceFacts', 'Coq.Logic.ClassicalChoice', 'Coq.Logic.ClassicalDescription',
+                  'Coq.Logic.ClassicalUniqueChoice', 'Coq.Logic.Description', 'Coq.Logic.RelationalChoice',
+                  'Coq.Logic.Classical_Pred_Type', 'Coq.setoid_ring', 'Coq.Reals', 'Coquelicot', 'mathcomp', 'Flocq')
+COQCHK_PRIMS = ('Coq.Numbers.Cyclic.Int63.PrimInt63.', 'Coq.Floats.PrimFloat.', 'Coq.Numbers.Cyclic.Int63.Uint63.',
+                'Coq.Numbers.Cyclic.Int63.Sint63.', 'Coq.Array.PArray.', 'Coq.Floats.FloatAxioms.', 'Coq.Floats.FloatOps.')
+
+
+def coqchk(prop, timeout=1500):
+    """coqchk -o on Props/<prop>.vo: returns (ok, axioms, not_allowed, tail of log)"""
+    rc, out = sh(['timeout', str(timeout), 'coqchk', '-silent', '-o', '-Q', '.', 'OV', f'OV.Props.{prop}'], cwd=COQ, timeout=timeout + 60)
+    axs = []
+    sect = None
+    flags = {}
+    for ln in out.split('\n'):
+        t = ln.strip()
+        if t.startswith('* '):
+            sect = t
+            if '<none>' in t:
+                flags[t.split(':')[0]] = 'none'
+            continue
+        if sect and sect.startswith('* Axioms') and t and not t.startswith('*'):
+            axs.append(t)
+    bad = [a for a in axs if not a.startswith(COQCHK_PRIMS) and not a.startswith(COQCHK_ALLOWED)]
+    unsafe = [k for k in ('* Constants/Inductives relying on type-in-type', '* Constants/Inductives relying on unsafe (co)fixpoints',
+                          '* Inductives whose positivity is assumed') if flags.get(k) != 'none']
+    ok = rc == 0 and not bad and not unsafe
+    return ok, axs, bad + unsafe, out[-600:]
